@@ -1086,6 +1086,24 @@ func corruptLex(r *rand.Rand, ls []qlex) ([]qlex, string) {
 		return out, "none"
 	}
 	i := r.Intn(len(out))
+	// a repeated label_format target, after a rename or after a template, adjacent or not: the targets
+	// of a stage are the identifiers followed by `=` up to the next `|`
+	for j, l := range out {
+		if l.Text != "label_format" || l.IsStr {
+			continue
+		}
+		var targets []int
+		for k := j + 1; k+1 < len(out) && !(out[k].Text == "|" && !out[k].IsStr); k++ {
+			if out[k].Kind == "id" && out[k+1].Text == "=" && !out[k+1].IsStr && (k == j+1 || out[k-1].Text == ",") {
+				targets = append(targets, k)
+			}
+		}
+		if len(targets) > 1 && r.Intn(2) == 0 {
+			last := targets[len(targets)-1]
+			out[last] = out[targets[r.Intn(len(targets)-1)]]
+			return out, fmt.Sprintf("duptarget@%d", last)
+		}
+	}
 	switch r.Intn(5) {
 	case 0:
 		return append(out[:i:i], out[i+1:]...), fmt.Sprintf("delete@%d", i)
